@@ -18,6 +18,12 @@ CHECKS = {
  "C06": dict(engine="E3 query sweeper", technique="bounded exhaustive enumeration of single-edit workspace variants x every identifier occurrence on the real Analysis API; relational invariant between references, goto_definition and highlight_related",
    text="For every base workspace, every single-token edit variant and every pathological shape, at EVERY identifier occurrence the three real answers are compared: references listed = occurrences whose goto leads to the declaration, declaration's own name included, no duplicates, same set from every listed occurrence, highlight = references in the file.",
    note="No hand-written expectations: the oracle is a relation between real answers. Workspaces: 3 bases (6 modules, 2 packages) + 30 pathological shapes; generated scoping programs are added by C05's generator.", ref="5/C06"),
+ "C07": dict(engine="E3 query sweeper + second host", technique="bounded exhaustive enumeration of every identifier occurrence of the workspaces x a fresh valid name on the real rename; full re-analysis of the edited workspace in a second host; differential oracle (binding graph isomorphism over every occurrence)",
+   text="At every identifier occurrence where rename to a fresh name of the right case class is accepted: edits replace whole identifier tokens spelled with the old name, are disjoint and equal the references; after applying them every identifier occurrence of every module resolves to the correspondingly shifted declaration (go-to-definition compared before/after through the position map), diagnostics are unchanged, and renaming back restores the texts.",
+   note="Workspaces: 3 bases (two packages in w3) + the C08 three-package workspace; generated scoping programs join via C05's generator. Fresh names checked to be absent.", ref="5/C07"),
+ "C08": dict(engine="finite product enumerator", technique="exhaustive enumeration of the finite product symbol probe x candidate name x package locality on the real rename / prepare_rename; decision-table oracle",
+   text="32 probes (every symbol kind at definition and use sites; symbols of the root package, of another local package and of a build/packages package; modules, built-ins, aliased spellings) x 43 candidate names (all keywords, valid/malformed identifiers of both cases, literals, operators, empty/space/multi-token, non-ASCII): rename must accept exactly when the table says so, never edit a dependency file, and agree with prepare_rename.",
+   note="The mapping build/packages -> is_local=false is C17's; here the package graph is built directly.", ref="5/C08"),
  "C10": dict(engine="E3 query sweeper in a supervised child process", technique="bounded exhaustive enumeration of workspace damage (every single token edit, truncation, item duplication/removal, import rewiring, pathological shapes) x nearby offsets x all 15 query kinds on the real Analysis API; crash containment by journaled isolated re-runs",
    text="Every variant is built as the server builds workspaces and every query kind is called at every token boundary near the damage and at a stride elsewhere; a panic is caught per call, an abort/stack overflow/hang kills the supervised child and the journaled case is confirmed in isolation.",
    note="Offsets away from the edit are strided (stated in evidence). Worker threads have 2 MiB stacks like the server's blocking pool.", ref="5/C10"),
